@@ -876,22 +876,40 @@ func (s *session) startReadAndHandle() {
 			s.peer.putContext(ctx, false)
 			return
 		}
-		err = s.socket.ReadMessage(ctx.input)
-		if (err != nil && ctx.GetBodyCodec() == codec.NilCodecID) || !s.goonRead() {
-			s.peer.putContext(ctx, false)
-			return
-		}
+		err = s.readMessage(ctx)
 		if err != nil {
 			ctx.stat = statBadMessage.Copy(err)
+		}
+		if (err != nil && ctx.GetBodyCodec() == codec.NilCodecID) || !s.goonRead() {
+			// complete and unlock the call bound by bindReply, if any
+			ctx.handleReply()
+			s.peer.putContext(ctx, false)
+			return
 		}
 		s.graceCtxWaitGroup.Add(1)
 		if !Go(func() {
 			defer s.peer.putContext(ctx, true)
 			ctx.handle()
 		}) {
+			// complete and unlock the call bound by bindReply, if any
+			ctx.handleReply()
 			s.peer.putContext(ctx, true)
 		}
 	}
+}
+
+// readMessage reads a message for the context.
+// If the reading panics after bindReply has bound (and locked) a call,
+// that call is completed and unlocked before the panic continues.
+func (s *session) readMessage(ctx *handlerCtx) error {
+	defer func() {
+		if p := recover(); p != nil {
+			ctx.stat = statBadMessage.Copy(p)
+			ctx.handleReply()
+			panic(p)
+		}
+	}()
+	return s.socket.ReadMessage(ctx.input)
 }
 
 func (s *session) write(message Message) (net.Conn, *Status) {
